@@ -77,6 +77,9 @@ for v in (0, -1, 'a', 'zz', 5, 'f', 'g', 'l', 0.0, False):
     OPS.append(['[', LIT(v)])
 OPS.append(['[', {'slice': [0, 2, None]}])
 OPS.append(['[', {'slice': [None, None, -1]}])
+OPS.append(['[', {'slice': [None, 0, None]}])        # bounds that are 0 (falsy) are bounds all the same
+OPS.append(['[', {'slice': [0, None, -1]}])
+OPS.append(['[', {'tuple': [{'slice': [0, 0, None]}, LIT(0)]}])
 OPS.append(['[', TA])
 OPS.append(['[', {'spec': 'a'}])
 OPS.append(['[', {'list': [LIT(1)]}])
